@@ -105,3 +105,104 @@ Proof.
   destruct (Z.ltb_spec 0 (max_msg o)); [|lia]. destruct (Z.ltb_spec (max_msg o) size); [|lia].
   reflexivity.
 Qed.
+
+(* ---- limits at any nesting position: from the codec law ------------------------------------------------------- *)
+From OV Require Import C01.BuiltinsProofs C01.VariantProofs C01.TypesProofs C01.Model C01.Proofs C03.Model.
+
+(* a well-formed value with some string / byte string / array longer than its limit, at any position,
+   is rejected; with every length within the limits (and the nesting within the depth) it is accepted *)
+Theorem nested_limits t v o rest : wf_ty t v -> plain o ->
+  (fits_ty t o (depth0 o) v = true ->
+     Codec.run (dec_ty t o (depth0 o)) (enc_ty t v ++ rest) = Ok (norm_ty t v, rest)) /\
+  (fits_ty t o (depth0 o) v = false ->
+     exists e, Codec.run (dec_ty t o (depth0 o)) (enc_ty t v ++ rest) = Err e).
+Proof.
+  intros Hw (Ho & Hd & Hl). destruct (ty_codec_ok t v Hw) as (_ & _ & D).
+  unfold ty_codec in D. cbn [enc dec chk norm] in D. rewrite D by exact Ho.
+  rewrite <- (fits_chk_ty o (depth0 o) Hl t v).
+  destruct (chk_ty t o (depth0 o) v) as [e|]; cbn [is_none]; split; intros H; try discriminate.
+  - exists e. reflexivity.
+  - reflexivity.
+Qed.
+
+(* the error is the limit error exactly when the first violation in decoding order is a length *)
+Theorem nested_limit_error t v o d rest : wf_ty t v -> offset_ns o = 0 -> chk_ty t o d v = Some ELimit ->
+  Codec.run (dec_ty t o d) (enc_ty t v ++ rest) = Err ELimit.
+Proof.
+  intros Hw Ho Hc. destruct (ty_codec_ok t v Hw) as (_ & _ & D).
+  unfold ty_codec in D. cbn [enc dec chk norm] in D. rewrite D by exact Ho. rewrite Hc. reflexivity.
+Qed.
+
+(* ---- the oracle on the model: value cases, chunk cases, and the contexts 1, 2, 5 -------------------------------- *)
+Lemma zlen_app {A} (a b : list A) : zlen (a ++ b) = zlen a + zlen b.
+Proof. unfold zlen. rewrite app_length. lia. Qed.
+
+Lemma oracle_val_case t v o : wf_ty t v -> plain o -> oracle (CVal t v o) (C03.Model.run (CVal t v o)) = true.
+Proof.
+  intros Hw Hp. destruct (nested_limits t v o [] Hw Hp) as [Ha Hr].
+  unfold oracle, C03.Model.run. cbn [case_bytes]. rewrite app_nil_r in Ha, Hr.
+  destruct (fits_ty t o (depth0 o) v).
+  - rewrite Ha by reflexivity. unfold zlen. cbn [length]. rewrite Z.sub_0_r. apply list_eqb_refl.
+  - destruct (Hr eq_refl) as [e He]. rewrite He. reflexivity.
+Qed.
+
+Lemma chunk_hdr_len mt fin size ch : length (chunk_header_bytes mt fin size ch) = 12%nat.
+Proof.
+  unfold chunk_header_bytes, enc_chunk_header. rewrite !app_length, !enc_u_length.
+  destruct (mt =? 0); [|destruct (mt =? 1)]; reflexivity.
+Qed.
+
+Lemma oracle_chunk_case o size body : in_u 4 size -> 0 <= max_msg o ->
+  oracle (CChunk o size body) (C03.Model.run (CChunk o size body)) = true.
+Proof.
+  intros Hs Hm. unfold oracle, C03.Model.run. cbn [case_bytes].
+  change ([77; 83; 71; 70] ++ enc_u 4 size ++ enc_u 4 1 ++ body)
+    with (chunk_header_bytes 0 1 size 1 ++ body).
+  assert (H1 : in_u 4 1) by (unfold in_u; cbn; lia).
+  destruct ((0 <? max_msg o) && (max_msg o <? size)) eqn:Hc.
+  - apply andb_true_iff in Hc. destruct Hc as [Ha Hb]. apply Z.ltb_lt in Ha. apply Z.ltb_lt in Hb.
+    unfold Codec.run. rewrite chunk_too_large by (auto; lia). reflexivity.
+  - assert (He : exists data rest, Codec.run (dec_chunk o) (chunk_header_bytes 0 1 size 1 ++ body) = Ok (data, rest)
+                                    /\ zlen data = Z.max size 12).
+    { unfold dec_chunk. rewrite run_bind, run_chunk_header by (auto; lia). cbn [nth]. rewrite Hc.
+      rewrite run_bind, run_alloc. cbv zeta.
+      destruct (Z.ltb_spec (Z.max size 12) 12); [lia|].
+      assert (Hl : forall x : bytes, zlen (enc_chunk_header [0; 1; size; 1] ++ x) = 12 + zlen x).
+      { intros x. rewrite zlen_app. unfold zlen at 1.
+        change (enc_chunk_header [0; 1; size; 1]) with (chunk_header_bytes 0 1 size 1).
+        rewrite chunk_hdr_len. reflexivity. }
+      unfold Codec.run.
+      destruct (Nat.ltb_spec (length body) (Z.to_nat (Z.max size 12 - 12))); cbn [fst];
+        eexists; eexists; (split; [reflexivity|]); rewrite Hl; unfold zlen.
+      - rewrite repeat_length. lia.
+      - rewrite firstn_length. lia. }
+    destruct He as (data & rest & He & Hlen). rewrite He, Hlen. apply Z.eqb_refl.
+Qed.
+
+(* the oracle on the model for the value and chunk cases *)
+Definition proved_case (c : case) : Prop := match c with CLen _ _ _ _ => False | _ => True end.
+Theorem oracle_holds_partial c : valid c -> proved_case c -> known c = 0 ->
+  oracle c (C03.Model.run c) = true.
+Proof.
+  intros Hv Hp _. destruct c as [t v o|ctx L o payload|o size body]; [|contradiction|].
+  - destruct Hv as [Hw Hpl]. apply oracle_val_case; assumption.
+  - destruct Hv as (Hs & _ & Hm). apply oracle_chunk_case; assumption.
+Qed.
+
+Example nested_limits_example :
+  let o := mk_opts 3 65535 1000 327675 10 0 in
+  let v := UV (VArray 12 [VS (SStr (Some [97; 98])); VS (SStr (Some [97; 98; 99; 100]))] None) in
+  wf_ty TVar v /\ plain o /\ fits_ty TVar o (depth0 o) v = false.
+Proof.
+  cbv zeta. split; [|split].
+  - cbn. unfold wf_bytes, is_byte. cbn.
+    repeat match goal with
+           | |- _ /\ _ => split
+           | |- Forall _ _ => constructor
+           | |- True => exact I
+           | |- _ = _ => reflexivity
+           | |- _ => lia
+           end.
+  - unfold plain. cbn. lia.
+  - vm_compute. reflexivity.
+Qed.
